@@ -206,6 +206,90 @@ fn main() {
         }
         let _ = i;
     }
+    // 3. --probe-search T: products at the Toom-3 length whose thirds are drawn from a small alphabet of block patterns (zero,
+    // one, all ones, top bits, dense): the carries that Toom-3 parks between its partial sums then run through a whole block
+    // now and then - a branch dense operands never take.  The library's rare-branch counters (cfg(dashu_verif),
+    // integer/src/verif_probe.rs) say when: only those products are recorded (and validated by the monitor like any other),
+    // the search stops after T products or when every Toom-3 counter has fired `want` times.
+    #[cfg(dashu_probe)]
+    if let Some(i) = args.extra.iter().position(|a| a == "--probe-search") {
+        let t: u64 = args.extra[i + 1].parse().unwrap();
+        let want: usize = args.extra.get(i + 2).and_then(|v| v.parse().ok()).unwrap_or(3);
+        let names = dashu_int::verif_probe::NAMES;
+        let mut kept = [0usize; 8];
+        let word = |rng: &mut Rng, kind: u64| -> u64 {
+            match kind % 8 {
+                0 | 1 => 0,
+                2 | 3 => u64::MAX,
+                4 => 1,
+                5 => 1 << 63,
+                6 => u64::MAX - 1,
+                _ => rng.next(),
+            }
+        };
+        let mut tried = 0u64;
+        while tried < t && (0..4).any(|k| kept[k] < want) {
+            tried += 1;
+            // the shorter factor is above mul::THRESHOLD_KARATSUBA (192 words); the longer one has the same length, or about
+            // twice / three times as many words (the kernel then ACCUMULATES into partial sums that are already there)
+            let n = 193 + rng.below(40) as usize;
+            let n3 = (n + 2) / 3;
+            // an operand is a sequence of runs of one word value; run lengths are short, about a third, or anything
+            let mut build = |rng: &mut Rng, len: usize| -> UBig {
+                let mut w: Vec<u64> = Vec::new();
+                while w.len() < len {
+                    let rl = match rng.below(4) {
+                        0 => 1 + rng.below(8) as usize,
+                        1 => n3 - 2 + rng.below(5) as usize,
+                        2 => 1 + rng.below(2 * n3 as u64) as usize,
+                        _ => 10 + rng.below(30) as usize,
+                    };
+                    let k = rng.next();
+                    let dense = k % 8 == 7;
+                    let v = word(rng, k);
+                    for _ in 0..rl.min(len - w.len()) {
+                        w.push(if dense { rng.next() } else { v });
+                    }
+                }
+                if *w.last().unwrap() == 0 {
+                    *w.last_mut().unwrap() = 1;
+                }
+                ubig_from_bytes(&w.iter().flat_map(|x| x.to_le_bytes()).collect::<Vec<u8>>())
+            };
+            let la = match rng.below(3) { 0 => n, 1 => 2 * n + rng.below(8) as usize, _ => n + rng.below(2 * n as u64) as usize };
+            let (mut a, mut b) = (build(&mut rng, la), build(&mut rng, n));
+            if la > n && rng.coin() {
+                // saturated partial sums: the first block product (B^n - 1)^2 = B^2n - 2 B^n + 1 leaves all-ones words where the
+                // second block product is accumulated, so the additions of the second Toom-3 call overflow their windows
+                let ones = (UBig::ONE << (64 * n)) - UBig::ONE;
+                a = ((a >> (64 * n)) << (64 * n)) + &ones;
+                if rng.coin() {
+                    b = ones;
+                } else {
+                    b = (UBig::ONE << (64 * n)) - (UBig::ONE << (64 * rng.below(n as u64 / 2) as usize)) - UBig::ONE;
+                }
+            }
+            let before = dashu_int::verif_probe::hits();
+            let _ = &a * &b;
+            let after = dashu_int::verif_probe::hits();
+            let fired: Vec<usize> = (0..4).filter(|k| after[*k] > before[*k]).collect();
+            if fired.iter().any(|k| kept[*k] < want) {
+                for k in &fired {
+                    kept[*k] += 1;
+                }
+                let (ai, bi) = (IBig::from(a), IBig::from(b));
+                run_case(&mut log, "mul", "U", "U", &ai, &bi, 0, "probe");
+                let (na, nb) = (guarded_or(ai.clone(), || -ai.clone()), bi);
+                run_case(&mut log, "mul", "I", "I", &na, &nb, 0, "probe");
+            }
+        }
+        let h = dashu_int::verif_probe::hits();
+        // the summary goes to a side file (it is not an operation): products tried, products kept per probe, raw counters
+        let summary = json!({"tried": tried,
+            "kept": names.iter().zip(kept.iter()).map(|(n, v)| json!({"name": n, "n": v})).collect::<Vec<_>>(),
+            "hits": names.iter().zip(h.iter()).map(|(n, v)| json!({"name": n, "n": v})).collect::<Vec<_>>()});
+        std::fs::write(format!("{}.probe", args.out), summary.to_string()).expect("harness: cannot write the probe summary");
+    }
     let n = log.finish();
     eprintln!("c01: {} events", n);
 }
